@@ -201,6 +201,10 @@ theorem C18_dec_ua_alloc (bs : Bytes) : rdUA.alloc bs ≤ rdUA.consumed bs + 655
 theorem C18_dec_pf_alloc (bs : Bytes) : rdPF.alloc bs ≤ rdPF.consumed bs + 65535 := by
   simpa using bnd_alloc rdPF bnd_pf bs
 
+/-- `getStatus`: the length is read as 16 bits of the 4-byte field -/
+theorem C18_dec_xst_alloc (bs : Bytes) : rdXst.alloc bs ≤ rdXst.consumed bs + 65535 := by
+  simpa using bnd_alloc rdXst bnd_xst bs
+
 /-- the window-size tube carries bare 8-byte records: nothing is allocated ahead of the data -/
 theorem C18_dec_size_alloc (bs : Bytes) : rdSize.alloc bs ≤ rdSize.consumed bs := by
   simpa using bnd_alloc rdSize bnd_size bs
@@ -213,6 +217,40 @@ theorem C18_dec_consumed (m : R α) {c k e : Nat} (h : Bnd m c k e) (bs : Bytes)
 
 /-- `GetInitMsg` cannot fail at all (it has no error result): short input is zero-padded -/
 theorem C18_dec_ua_total (bs : Bytes) : ∃ u r, decUA bs = .ok (u, r) := ua_total bs
+
+/-! ## exec status: `SendSuccess` / `SendFailure` against `getStatus` -/
+
+/-- every status whose text fits the 16-bit length comes back as it was sent, nothing left over -/
+theorem C18_xst_roundtrip (s : XStatus) (rest : Bytes)
+    (h : match s with | .conf => True | .fail m => m.length ≤ 65535) :
+    decXst (encXst s ++ rest) = .ok (s, rest) := by
+  cases s with
+  | conf => exact reads_xst_conf rest
+  | fail m =>
+    have hm : m.length ≤ 65535 := h
+    have : m.length % 65536 = m.length := Nat.mod_eq_of_lt (by omega)
+    simp only [encXst, this]
+    exact reads_xst_fail hm rest
+
+/-- `SendFailure` has no error path: a text of 65536 bytes or more is sent with a wrapped length,
+and the reader returns another text (the one case in which the pair does not round-trip) -/
+example : decXst (encXst (.fail (List.replicate 65536 0x41))) ≠ .ok (.fail (List.replicate 65536 0x41), []) := by
+  intro h
+  have hp : (List.replicate 65536 (0x41 : UInt8)).length ≤ 65535 := post_xst _ _ _ h
+  rw [List.length_replicate] at hp
+  omega
+
+/-- whatever `getStatus` returns is a status that `Send*` encodes to something it reads back -/
+theorem C18_xst_stable (b r : Bytes) (s : XStatus) (h : decXst b = .ok (s, r)) (r' : Bytes) :
+    decXst (encXst s ++ r') = .ok (s, r') :=
+  C18_xst_roundtrip s r' (post_xst b s r h)
+
+/-- `getStatus` has no error result: short input is zero-padded -/
+theorem C18_dec_xst_total (bs : Bytes) : ∃ s r, decXst bs = .ok (s, r) := xst_total bs
+
+example : decXst [1, 9] = .ok (.conf, [9]) := rfl
+example : decXst [2, 0, 2, 0, 0, 0x6e, 0x6f, 7] = .ok (.fail [0x6e, 0x6f], [7]) := rfl
+example : decXst [2, 0, 2] = .ok (.fail [0, 0], []) := rfl
 
 /-! ## constants of the Go source the models rely on (regenerated on every run) -/
 
